@@ -86,6 +86,19 @@ def expected_counts(cells, pardim, period=None):
     return expected
 
 
+def apply_weights(o):
+    """non-unit weights that are a smooth function of the (projected) control point, so that control points shared between
+    patches carry the same weight: the homogeneous nets of shared faces stay identical"""
+    import numpy as np
+    cp = o.controlpoints
+    x = cp[..., :-1] / cp[..., -1:]
+    w = 1.25 + 0.5 * x[..., :1] / (1.0 + np.sum(x * x, axis=-1, keepdims=True))
+    cp[..., :-1] = x * w
+    cp[..., -1:] = w
+    return o
+
+
+
 def build_ring(rng, pardim, order=2, refine=0, rational=False, repeat_knot=False, nring=None, right_handed=False, asym=False):
     """Conforming complexes that close around an axis: the lattice is periodic along axis 0 with nring cells per turn.
     nring = 1: every patch is a ring cut open along a seam, so its first and last face along axis 0 are ONE interface
@@ -150,6 +163,8 @@ def _dress(rng, o, pardim, order, refine, repeat_knot, rational, right_handed, b
         rational = rng.random() < 0.5       # per patch: rational and polynomial patches share vertices, edges and faces
     if rational:
         o.force_rational()
+        if rational == 'weighted':
+            apply_weights(o)
     ors = orientations(pardim)
     while True:
         perm, flip = rng.choice(ors)
@@ -193,6 +208,8 @@ def build(rng, pardim, dim=None, order=2, refine=0, rational=False, right_handed
                     o.insert_knot(x_, d_)
         if (rng.random() < 0.5) if rational == 'mixed' else rational:
             o.force_rational()
+            if rational == 'weighted':
+                apply_weights(o)
         ors = orientations(pardim)
         while True:
             perm, flip = rng.choice(ors)
